@@ -990,7 +990,13 @@ def extract_filters(
                 ).is_single() and not _depends_on(right, result_set):
                     pointers = []
                     left_stype = env.set_types[left]
-                    if left_stype == result_stype:
+                    # N.B: comparing the types is not enough here: a link
+                    # to the same type (.best = <User>...) is not the
+                    # object itself.
+                    if (
+                        left_stype == result_stype
+                        and left.path_id == result_set.path_id
+                    ):
                         assert isinstance(left_stype, s_objtypes.ObjectType)
                         ptr = left_stype.getptr(schema, sn.UnqualName('id'))
                         pointers.append(ptr)
